@@ -19,7 +19,7 @@ BUDGETS = {
     "C03": {"quick": {"procs": 32, "runs": 250}, "thorough": {"procs": 256, "runs": 480}},
     "C04": {"quick": {"procs": 32, "runs": 800}, "thorough": {"procs": 256, "runs": 2500}},
     "C06": {"quick": {"procs": 32, "runs": 40}, "thorough": {"procs": 192, "runs": 240}},
-    "C07": {"quick": {"procs": 32, "runs": 25, "common": 8}, "thorough": {"procs": 192, "runs": 150, "common": 12}},
+    "C07": {"quick": {"procs": 32, "runs": 50, "common": 8}, "thorough": {"procs": 192, "runs": 150, "common": 12}},
     "C09": {"quick": {"procs": 32, "runs": 6}, "thorough": {"procs": 256, "runs": 15}},
     "C10": {"quick": {"procs": 32, "runs": 80}, "thorough": {"procs": 192, "runs": 250}},
     "C11": {"quick": {"procs": 32, "runs": 40}, "thorough": {"procs": 192, "runs": 100}},
